@@ -12,6 +12,7 @@ import (
 
 	"github.com/TarsCloud/TarsGo/tars/registry"
 	"github.com/TarsCloud/TarsGo/tars/transport"
+	"github.com/TarsCloud/TarsGo/tars/util/gtime"
 	"github.com/TarsCloud/TarsGo/tars/util/rogger"
 )
 
@@ -34,6 +35,7 @@ type VerifClientOpts struct {
 // VerifNewApp installs a fresh default application (no flags, no config file, no reporters).
 func VerifNewApp() *application {
 	rogger.SetLevel(rogger.OFF)
+	gtime.VerifStart()
 	app := newApp()
 	app.initOnce.Do(func() {})
 	defaultApp = app
@@ -56,7 +58,7 @@ func VerifNewCommunicator(o VerifClientOpts) *Communicator {
 	if !o.KeepApp {
 		app = VerifNewApp()
 	}
-	msgID = o.MsgID
+	verifSetMsgID(o.MsgID)
 	c := app.cltCfg
 	if o.AsyncInvokeTimeout != 0 {
 		c.AsyncInvokeTimeout = o.AsyncInvokeTimeout
@@ -94,9 +96,6 @@ func VerifNewCommunicator(o VerifClientOpts) *Communicator {
 	}
 	return newCommunicator(app, c, opts...)
 }
-
-// VerifMsgID exposes the request id counter.
-func VerifMsgID() int32 { return msgID }
 
 // VerifGenRequestID calls the id generator of a proxy.
 func VerifGenRequestID(s *ServantProxy) int32 { return s.genRequestID() }
